@@ -18,18 +18,24 @@ import (
 	"encoding/binary"
 	"encoding/hex"
 	"fmt"
+	"math/big"
+	"slices"
 	"sort"
 	"strings"
 
 	"github.com/nspcc-dev/neo-go/pkg/config"
 	"github.com/nspcc-dev/neo-go/pkg/core"
+	"github.com/nspcc-dev/neo-go/pkg/core/interop"
 	"github.com/nspcc-dev/neo-go/pkg/core/interop/interopnames"
+	istorage "github.com/nspcc-dev/neo-go/pkg/core/interop/storage"
 	"github.com/nspcc-dev/neo-go/pkg/core/mpt"
 	"github.com/nspcc-dev/neo-go/pkg/core/native/nativenames"
 	"github.com/nspcc-dev/neo-go/pkg/core/native/noderoles"
-	"github.com/nspcc-dev/neo-go/pkg/crypto/keys"
 	"github.com/nspcc-dev/neo-go/pkg/core/state"
+	"github.com/nspcc-dev/neo-go/pkg/core/storage"
 	"github.com/nspcc-dev/neo-go/pkg/core/transaction"
+	"github.com/nspcc-dev/neo-go/pkg/crypto/keys"
+	"github.com/nspcc-dev/neo-go/pkg/encoding/bigint"
 	"github.com/nspcc-dev/neo-go/pkg/io"
 	"github.com/nspcc-dev/neo-go/pkg/neotest"
 	"github.com/nspcc-dev/neo-go/pkg/neotest/chain"
@@ -107,6 +113,30 @@ func buildContract(sender util.Uint160, name string) *neotest.Contract {
 			emit.Instruction(w, opcode.JMP, []byte{byte(256 - (1 + 5 + 2 + 1 + 1 + 5 + 1))})
 			emit.Opcodes(w, opcode.LDLOC0, opcode.RET)
 		}},
+		// wfind(key, value, delKey, prefix, opts): the invocation writes and deletes first, then searches
+		// (the search sees its own uncommitted writes through the private cache layer)
+		{"wfind", []smartcontract.ParamType{ba, ba, ba, ba, in}, smartcontract.ArrayType, false, func(w *io.BinWriter) {
+			emit.Instruction(w, opcode.INITSLOT, []byte{2, 5})
+			emit.Opcodes(w, opcode.LDARG1, opcode.LDARG0)
+			emit.Syscall(w, interopnames.SystemStorageGetContext)
+			emit.Syscall(w, interopnames.SystemStoragePut)
+			emit.Opcodes(w, opcode.LDARG2)
+			emit.Syscall(w, interopnames.SystemStorageGetContext)
+			emit.Syscall(w, interopnames.SystemStorageDelete)
+			emit.Opcodes(w, opcode.NEWARRAY0, opcode.STLOC0)
+			emit.Opcodes(w, opcode.LDARG4, opcode.LDARG3)
+			emit.Syscall(w, interopnames.SystemStorageGetContext)
+			emit.Syscall(w, interopnames.SystemStorageFind)
+			emit.Opcodes(w, opcode.STLOC1)
+			emit.Opcodes(w, opcode.LDLOC1)
+			emit.Syscall(w, interopnames.SystemIteratorNext)
+			emit.Instruction(w, opcode.JMPIFNOT, []byte{2 + 1 + 1 + 5 + 1 + 2})
+			emit.Opcodes(w, opcode.LDLOC0, opcode.LDLOC1)
+			emit.Syscall(w, interopnames.SystemIteratorValue)
+			emit.Opcodes(w, opcode.APPEND)
+			emit.Instruction(w, opcode.JMP, []byte{byte(256 - (1 + 5 + 2 + 1 + 1 + 5 + 1))})
+			emit.Opcodes(w, opcode.LDLOC0, opcode.RET)
+		}},
 	}
 	w := io.NewBufBinWriter()
 	m := manifest.NewManifest(name)
@@ -148,6 +178,94 @@ func dumpAll(bc *core.Blockchain, ids []int32) dump {
 		})
 	}
 	return d
+}
+
+// keepStore is a MemoryStore that survives Blockchain.Close (the node's database on disk). While
+// rec is set it records the write batches that reach it (the crash points of a state reset).
+type keepStore struct {
+	*storage.MemoryStore
+	rec     bool
+	batches []changeSet
+}
+
+type changeSet struct{ puts, stor map[string][]byte }
+
+func (*keepStore) Close() error { return nil }
+
+func (s *keepStore) PutChangeSet(puts, stor map[string][]byte) error {
+	if s.rec {
+		cp := func(m map[string][]byte) map[string][]byte {
+			r := make(map[string][]byte, len(m))
+			for k, v := range m {
+				if v == nil {
+					r[k] = nil
+				} else {
+					r[k] = bytes.Clone(v)
+				}
+			}
+			return r
+		}
+		s.batches = append(s.batches, changeSet{cp(puts), cp(stor)})
+	}
+	return s.MemoryStore.PutChangeSet(puts, stor)
+}
+
+// snapshot copies the whole database.
+func (s *keepStore) snapshot() changeSet {
+	cs := changeSet{map[string][]byte{}, map[string][]byte{}}
+	for b := 0; b < 256; b++ {
+		s.MemoryStore.Seek(storage.SeekRange{Prefix: []byte{byte(b)}}, func(k, v []byte) bool {
+			if b == int(storage.STStorage) || b == int(storage.STTempStorage) {
+				cs.stor[string(k)] = bytes.Clone(v)
+			} else {
+				cs.puts[string(k)] = bytes.Clone(v)
+			}
+			return true
+		})
+	}
+	return cs
+}
+
+// crashedCopy is the database a crash after the first n recorded batches leaves behind.
+func crashedCopy(snap changeSet, batches []changeSet, n int) *keepStore {
+	st := &keepStore{MemoryStore: storage.NewMemoryStore()}
+	_ = st.MemoryStore.PutChangeSet(snap.puts, snap.stor)
+	for _, b := range batches[:n] {
+		_ = st.MemoryStore.PutChangeSet(b.puts, b.stor)
+	}
+	return st
+}
+
+func sameDump(a, b dump) bool {
+	if len(a) != len(b) {
+		return false
+	}
+	for k, v := range a {
+		if w, ok := b[k]; !ok || !bytes.Equal(v, w) {
+			return false
+		}
+	}
+	return true
+}
+
+func diffDump(got, want dump) string {
+	var parts []string
+	for _, k := range sortedKeys(want) {
+		if v, ok := got[k]; !ok {
+			parts = append(parts, fmt.Sprintf("missing %x", k))
+		} else if !bytes.Equal(v, want[k]) {
+			parts = append(parts, fmt.Sprintf("value of %x is %x, committed %x", k, v, want[k]))
+		}
+	}
+	for _, k := range sortedKeys(got) {
+		if _, ok := want[k]; !ok {
+			parts = append(parts, fmt.Sprintf("extra %x", k))
+		}
+	}
+	if len(parts) > 4 {
+		parts = append(parts[:4], fmt.Sprintf("... %d differences", len(parts)))
+	}
+	return strings.Join(parts, "; ")
 }
 
 func sortedKeys(d dump) []string {
@@ -218,6 +336,227 @@ func runRO(bc *core.Blockchain, e *neotest.Executor, script []byte, nextHeight u
 	})
 }
 
+// itemCanon prints an item with its type (the Lean driver prints the model's items the same way).
+func itemCanon(it stackitem.Item) string {
+	switch it.Type() {
+	case stackitem.ByteArrayT:
+		return "B" + hx.Hex(it.Value().([]byte))
+	case stackitem.BufferT:
+		return "U" + hx.Hex(it.Value().([]byte))
+	case stackitem.BooleanT:
+		if it.Value().(bool) {
+			return "T"
+		}
+		return "F"
+	case stackitem.IntegerT:
+		return "I" + hx.Hex(bigint.ToBytes(it.Value().(*big.Int)))
+	case stackitem.ArrayT, stackitem.StructT:
+		arr := it.Value().([]stackitem.Item)
+		s := make([]string, len(arr))
+		for i := range arr {
+			s[i] = itemCanon(arr[i])
+		}
+		if it.Type() == stackitem.ArrayT {
+			return "A[" + strings.Join(s, ",") + "]"
+		}
+		return "S[" + strings.Join(s, ",") + "]"
+	case stackitem.MapT:
+		els := it.Value().([]stackitem.MapElement)
+		s := make([]string, len(els))
+		for i := range els {
+			s[i] = itemCanon(els[i].Key) + ":" + itemCanon(els[i].Value)
+		}
+		return "M[" + strings.Join(s, ",") + "]"
+	case stackitem.AnyT:
+		return "N"
+	case stackitem.InteropT:
+		return "X"
+	case stackitem.PointerT:
+		return "P"
+	}
+	return "?"
+}
+
+// the messages of the option checks of findWithContext, in source order (find.go:103-120)
+var findCheckMsgs = []string{"unknown flag", "KeysOnly conflicts with other options", "KeysOnly conflicts with ValuesOnly",
+	"Pick0 conflicts with Pick1", "PickN is specified without Deserialize"}
+
+// runFind runs a script whose result is the array of items a Storage.Find iterator yields, live or on
+// the state of height nextHeight-1: "invalid:<i>" (option check i failed), "fault", "ok:[items]".
+func runFind(bc *core.Blockchain, e *neotest.Executor, script []byte, nextHeight uint32, historic bool) string {
+	return hx.Safe(func() string {
+		tx := transaction.New(script, 0)
+		tx.Signers = []transaction.Signer{{Account: e.Validator.ScriptHash(), Scopes: transaction.Global}}
+		tx.ValidUntilBlock = bc.BlockHeight() + 1
+		var (
+			ic  *interop.Context
+			err error
+		)
+		if historic {
+			ic, err = bc.GetTestHistoricVM(trigger.Application, tx, nextHeight)
+		} else {
+			ic, err = bc.GetTestVM(trigger.Application, tx, nil)
+		}
+		if err != nil {
+			return "err:" + err.Error()
+		}
+		defer ic.Finalize()
+		ic.VM.LoadWithFlags(script, callflag.All)
+		rerr := ic.VM.Run()
+		if ic.VM.State() != vmstate.Halt {
+			if rerr != nil && strings.Contains(rerr.Error(), "invalid Find options") {
+				for i, m := range findCheckMsgs {
+					if strings.Contains(rerr.Error(), m) {
+						return fmt.Sprintf("invalid:%d", i+1)
+					}
+				}
+			}
+			return "fault"
+		}
+		if ic.VM.Estack().Len() != 1 {
+			return "stack:" + fmt.Sprint(ic.VM.Estack().Len())
+		}
+		res := ic.VM.Estack().Pop().Item()
+		arr, ok := res.Value().([]stackitem.Item)
+		if !ok || res.Type() != stackitem.ArrayT {
+			return "notarray"
+		}
+		s := make([]string, len(arr))
+		for i := range arr {
+			s[i] = itemCanon(arr[i])
+		}
+		return "ok:[" + strings.Join(s, ",") + "]"
+	})
+}
+
+// expectFind: the property's direct oracle for valid option words: the image of the ordered prefix
+// range of the storage dump d (MPT keys id||key) under Iterator.Value (values deserialised with
+// pkg/vm/stackitem where the options ask for it; a value that does not deserialise or cannot be
+// picked from faults the invocation).
+func expectFind(d dump, id int32, prefix []byte, opts int) string {
+	full := string(idKey(id, prefix))
+	var ks []string
+	for _, kk := range sortedKeys(d) {
+		if strings.HasPrefix(kk, full) {
+			ks = append(ks, kk)
+		}
+	}
+	if opts&istorage.FindBackwards != 0 {
+		slices.Reverse(ks)
+	}
+	s := make([]string, len(ks))
+	for i, kk := range ks {
+		key := []byte(kk[4:])
+		if opts&istorage.FindRemovePrefix != 0 {
+			key = key[len(prefix):]
+		}
+		if opts&istorage.FindKeysOnly != 0 {
+			s[i] = "B" + hx.Hex(key)
+			continue
+		}
+		val := "B" + hx.Hex(d[kk])
+		if opts&istorage.FindDeserialize != 0 {
+			it, err := stackitem.Deserialize(d[kk])
+			if err != nil {
+				return "fault"
+			}
+			if opts&(istorage.FindPick0|istorage.FindPick1) != 0 {
+				idx := 0
+				if opts&istorage.FindPick0 == 0 {
+					idx = 1
+				}
+				arr, ok := it.Value().([]stackitem.Item)
+				if !ok || (it.Type() != stackitem.ArrayT && it.Type() != stackitem.StructT) || idx >= len(arr) {
+					return "fault"
+				}
+				it = arr[idx]
+			}
+			val = itemCanon(it)
+		}
+		if opts&istorage.FindValuesOnly != 0 {
+			s[i] = val
+		} else {
+			s[i] = "S[B" + hx.Hex(key) + "," + val + "]"
+		}
+	}
+	return "ok:[" + strings.Join(s, ",") + "]"
+}
+
+// the option words that pass the checks of findWithContext
+var validFindOpts = func() []int {
+	var res []int
+	for _, base := range []int{0, 1, 2, 3, 4, 8, 10, 12, 24, 26, 28, 40, 42, 44} {
+		res = append(res, base, base|128)
+	}
+	return res
+}()
+
+func isValidFindOpt(o int) bool { return slices.Contains(validFindOpts, o) }
+
+// genOpts: an option word: mostly valid ones, any byte, and integers outside the byte / int64 range.
+func genOpts(r *prng.R) *big.Int {
+	switch r.Weighted([]int{6, 3, 1}) {
+	case 0:
+		return big.NewInt(int64(validFindOpts[r.Intn(len(validFindOpts))]))
+	case 1:
+		return big.NewInt(int64(r.Intn(256)))
+	}
+	v := big.NewInt(int64(validFindOpts[r.Intn(len(validFindOpts))]))
+	one := big.NewInt(1)
+	switch r.Intn(7) {
+	case 0:
+		return big.NewInt(-1 - int64(r.Intn(200)))
+	case 1:
+		return v.Add(v, big.NewInt(256<<uint(r.Intn(40))))
+	case 2:
+		return v.Add(v, new(big.Int).Lsh(one, 64)) // low 64 bits are a valid word
+	case 3:
+		return v.Sub(v, new(big.Int).Lsh(one, 64)) // negative, |x| mod 2^64 != 0
+	case 4:
+		return v.Neg(new(big.Int).Lsh(one, 64)) // Int64() == 0
+	case 5:
+		return v.Add(v, new(big.Int).Lsh(one, 63))
+	default:
+		return v.Sub(new(big.Int).Lsh(one, 255), one)
+	}
+}
+
+// genItem: a random stack item (for values that System.Storage.Find deserialises and picks from).
+func genItem(r *prng.R, depth int) stackitem.Item {
+	k := r.Intn(8)
+	if depth <= 0 && k >= 5 {
+		k = r.Intn(5)
+	}
+	switch k {
+	case 0:
+		return stackitem.NewByteArray(r.Bytes(r.Range(0, 4)))
+	case 1:
+		return stackitem.NewBigInteger(big.NewInt(int64(r.Intn(70000)) - 300))
+	case 2:
+		return stackitem.NewBool(r.Chance(1, 2))
+	case 3:
+		return stackitem.Null{}
+	case 4:
+		return stackitem.NewBuffer(r.Bytes(r.Range(0, 3)))
+	case 5, 6:
+		n := r.Range(0, 3)
+		its := make([]stackitem.Item, n)
+		for i := range its {
+			its[i] = genItem(r, depth-1)
+		}
+		if k == 5 {
+			return stackitem.NewArray(its)
+		}
+		return stackitem.NewStruct(its)
+	default:
+		m := stackitem.NewMap()
+		for i := r.Range(0, 2); i > 0; i-- {
+			m.Add(stackitem.NewByteArray(r.Bytes(1)), genItem(r, depth-1))
+		}
+		return m
+	}
+}
+
 func callScript(h util.Uint160, method string, args ...any) []byte {
 	w := io.NewBufBinWriter()
 	emit.AppCall(w.BinWriter, h, method, callflag.All, args...)
@@ -239,6 +578,36 @@ func genKey(r *prng.R, minLen int) []byte {
 }
 
 func genVal(r *prng.R) []byte {
+	if r.Chance(2, 5) {
+		// a serialised stack item (what FindDeserialize / FindPick0 / FindPick1 work on), sometimes
+		// followed by garbage, cut short, or with a non-minimal integer inside
+		it := genItem(r, 2)
+		if r.Chance(2, 3) {
+			n := r.Range(1, 3)
+			its := make([]stackitem.Item, n)
+			for i := range its {
+				its[i] = genItem(r, 1)
+			}
+			if r.Chance(1, 4) {
+				it = stackitem.NewStruct(its)
+			} else {
+				it = stackitem.NewArray(its)
+			}
+		}
+		b, err := stackitem.Serialize(it)
+		if err != nil {
+			return []byte{0x40, 0x00}
+		}
+		switch r.Intn(10) {
+		case 0:
+			return append(b, r.Bytes(r.Range(1, 3))...)
+		case 1:
+			return b[:r.Intn(len(b))]
+		case 2:
+			return []byte{0x40, 0x02, 0x21, 0x02, 0x05, 0x00, 0x21, 0x03, 0xff, 0xff, 0xff} // non-minimal integers
+		}
+		return b
+	}
 	switch r.Intn(6) {
 	case 0:
 		return []byte{} // empty value
@@ -251,8 +620,6 @@ func genVal(r *prng.R) []byte {
 	}
 }
 
-var findOpts = []int{0, 1, 2, 3, 4, 128, 129, 130, 131, 132}
-
 // reads is a sample of read-only scripts evaluated live at every height and historically later.
 type read struct {
 	desc   string
@@ -263,13 +630,40 @@ type heightRec struct {
 	d     dump
 	root  util.Uint256
 	reads []string // results of the fixed read sample at this height
+	finds []string // results of the case's System.Storage.Find sample at this height
+}
+
+// findRead is one System.Storage.Find invocation: contract, prefix, option word and (wfind) the
+// invocation's own put and delete before the search.
+type findRead struct {
+	id     int32
+	prefix []byte
+	opts   *big.Int
+	write  bool
+	key    []byte
+	val    []byte
+	del    []byte
+	script []byte
+}
+
+// line is the op line for the Lean driver: at = "live" / a height.
+func (fr *findRead) line(at string) string {
+	id4 := hx.Hex(idKey(fr.id, nil))
+	if !fr.write {
+		if at == "live" {
+			return fmt.Sprintf("findl %s %s %s", id4, hx.Hex(fr.prefix), fr.opts.String())
+		}
+		return fmt.Sprintf("findh %s %s %s %s", at, id4, hx.Hex(fr.prefix), fr.opts.String())
+	}
+	return fmt.Sprintf("findw %s %s %s %s %s %s %s del", at, id4, hx.Hex(fr.prefix), fr.opts.String(),
+		hx.Hex(fr.key), hx.Hex(fr.val), hx.Hex(fr.del))
 }
 
 func main() {
 	f := hx.ParseFlags()
 	o := hx.NewOut(f.Out)
 	defer o.Close()
-	n := f.N(25, 1500)
+	n := f.N(25, 1000)
 	for k := 0; k < n; k++ {
 		if !f.Want(k) {
 			continue
@@ -299,27 +693,38 @@ func runCase(o *hx.Out, f *hx.Flags, k int, t *tb) {
 	// 2 = KeepOnlyLatestState (reference-counted, only the latest root is readable)
 	stMode := r.Weighted([]int{5, 3, 2})
 	o.Count(fmt.Sprintf("state-mode:%d", stMode))
-	bc, acc := chain.NewSingleWithCustomConfig(t, func(c *config.Blockchain) {
-		switch stMode {
-		case 1:
-			c.Ledger.RemoveUntraceableBlocks = true
-		case 2:
-			c.Ledger.KeepOnlyLatestState = true
+	// the node's database outlives the Blockchain object (restart / reset scenarios)
+	st := &keepStore{MemoryStore: storage.NewMemoryStore()}
+	openOn := func(st storage.Store, run bool) (*core.Blockchain, neotest.Signer) {
+		b, a := chain.NewSingleWithCustomConfigAndStore(t, func(c *config.Blockchain) {
+			switch stMode {
+			case 1:
+				c.Ledger.RemoveUntraceableBlocks = true
+			case 2:
+				c.Ledger.KeepOnlyLatestState = true
+			}
+		}, st, false)
+		if run {
+			go b.Run()
 		}
-	})
+		return b, a
+	}
+	open := func(run bool) (*core.Blockchain, neotest.Signer) { return openOn(st, run) }
+	bc, acc := open(true)
+	closed := false
+	closeNode := func() {
+		if !closed {
+			closed = true
+			bc.Close()
+		}
+	}
+	defer closeNode()
 	e := neotest.NewExecutor(t, bc, acc, acc)
 	c := buildContract(e.Validator.ScriptHash(), "S")
 	c2 := buildContract(e.Validator.ScriptHash(), "S2")
-	e.DeployContract(t, c, nil)
-	e.DeployContract(t, c2, nil)
-	cs, err := bc.GetContractState(c.Hash), error(nil)
-	_ = err
-	cs2 := bc.GetContractState(c2.Hash)
-	if cs == nil || cs2 == nil {
-		o.Fail("harness-deploy", k, "contract not deployed")
-		return
-	}
-	ids := []int32{cs.ID, cs2.ID}
+	// deployed in blocks 1 and 2: the first two contract ids
+	const deployedAt = 2
+	ids := []int32{1, 2}
 	for _, nc := range bc.GetNatives() {
 		ids = append(ids, nc.ID)
 	}
@@ -328,10 +733,29 @@ func runCase(o *hx.Out, f *hx.Flags, k int, t *tb) {
 	// the fixed sample of read-only scripts
 	var reads []read
 	prefixes := [][]byte{{}, {0x01}, {0x01, 0x02}, {0x10}, {0x12, 0x01}, {0x02, 0x02, 0x02}}
-	for _, p := range prefixes {
-		for _, op := range findOpts {
-			reads = append(reads, read{fmt.Sprintf("find %x %d", p, op), callScript(c.Hash, "find", p, op)})
+	// the case's sample of System.Storage.Find invocations (run live at every height, then
+	// historically; both results also go to the Lean driver)
+	var finds []*findRead
+	for i := 0; i < 44; i++ {
+		fr := &findRead{id: ids[0], prefix: prefixes[r.Weighted([]int{6, 4, 2, 4, 1, 1})], opts: genOpts(r)}
+		hash := c.Hash
+		if r.Chance(1, 8) {
+			fr.id, hash = ids[1], c2.Hash
 		}
+		if r.Chance(1, 6) {
+			fr.prefix = genKey(r, 0)
+		}
+		if i >= 36 {
+			fr.write = true
+			fr.key, fr.val, fr.del = genKey(r, 0), genVal(r), genKey(r, 0)
+			if r.Chance(1, 2) {
+				fr.key = append(bytes.Clone(fr.prefix), genKey(r, 0)...)
+			}
+			fr.script = callScript(hash, "wfind", fr.key, fr.val, fr.del, fr.prefix, fr.opts)
+		} else {
+			fr.script = callScript(hash, "find", fr.prefix, fr.opts)
+		}
+		finds = append(finds, fr)
 	}
 	for i := 0; i < 6; i++ {
 		key := genKey(r, 0)
@@ -365,9 +789,56 @@ func runCase(o *hx.Out, f *hx.Flags, k int, t *tb) {
 		for _, rd := range reads {
 			rec.reads = append(rec.reads, runRO(bc, e, rd.script, 0, false))
 		}
+		for _, fr := range finds {
+			rec.finds = append(rec.finds, runFind(bc, e, fr.script, 0, false))
+		}
 		recs[h] = rec
 	}
-	h0 := bc.BlockHeight()
+	// emitFinds: the live results of height h go to the driver (whose live-side model store is at
+	// the same height now) and, for option words without Deserialize, are compared with the image
+	// of the ordered prefix range of the storage dump.
+	emitFinds := func(h uint32) {
+		rec := recs[h]
+		for i, fr := range finds {
+			got := rec.finds[i]
+			o.Line(fr.line("live"), got)
+			switch {
+			case strings.HasPrefix(got, "invalid"):
+				o.Count("find-live:invalid")
+			case got == "fault":
+				o.Count("find-live:fault")
+			case strings.HasPrefix(got, "ok:[]"):
+				o.Count("find-live:ok-empty")
+			default:
+				o.Count("find-live:ok-items")
+			}
+			if fr.opts.IsInt64() && fr.opts.Int64() >= 0 && fr.opts.Int64() < 256 {
+				ov := int(fr.opts.Int64())
+				if isValidFindOpt(ov) != !strings.HasPrefix(got, "invalid") {
+					o.Fail("find-option-validity", k, "height %d opts %d: %s", h, ov, got)
+				}
+				if isValidFindOpt(ov) {
+					d := rec.d
+					if fr.write {
+						// the invocation's own put and delete come first
+						d = dump{}
+						for kk, v := range rec.d {
+							d[kk] = v
+						}
+						d[string(idKey(fr.id, fr.key))] = fr.val
+						delete(d, string(idKey(fr.id, fr.del)))
+					}
+					if want := expectFind(d, fr.id, fr.prefix, ov); got != want {
+						o.Fail("find-live-mismatch", k, "height %d id %d prefix %x opts %d: got %s want %s", h, fr.id, fr.prefix, ov, got, want)
+					}
+					o.Count("find-live:oracle")
+				}
+			} else if !strings.HasPrefix(got, "invalid") && !(fr.opts.BitLen() > 64 || fr.opts.Sign() < 0) {
+				o.Fail("find-option-validity", k, "height %d opts %s accepted: %s", h, fr.opts, got)
+			}
+		}
+	}
+	h0 := bc.BlockHeight() // 0: genesis
 	record()
 	prev := dump{}
 	emitBatch := func(h uint32, prev, cur dump) {
@@ -397,14 +868,26 @@ func runCase(o *hx.Out, f *hx.Flags, k int, t *tb) {
 		o.Line(fmt.Sprintf("batch %d %s", h, strings.Join(parts, " ")), hex.EncodeToString(recs[h].root[:]))
 		o.Add("batch-changes", len(parts)/2)
 	}
-	// the whole storage at h0 (genesis + deployments) as one batch from the empty trie
+	// the whole storage of genesis as one batch from the empty trie, then the two deployments
 	emitBatch(h0, prev, recs[h0].d)
 	prev = recs[h0].d
+	for i, cc := range contracts {
+		e.DeployContract(t, cc, nil)
+		if cs := bc.GetContractState(cc.Hash); cs == nil || cs.ID != ids[i] {
+			o.Fail("harness-deploy", k, "contract %d not deployed with id %d", i, ids[i])
+			return
+		}
+		record()
+		h := bc.BlockHeight()
+		emitBatch(h, prev, recs[h].d)
+		prev = recs[h].d
+	}
+	emitFinds(deployedAt)
 
 	nBlocks := r.Range(8, 25)
 	live := map[string]bool{}
 	var usedKeys [][]byte
-	for b := 0; b < nBlocks; b++ {
+	addRandomBlock := func() {
 		ntx := r.Range(0, 4)
 		var txs []*transaction.Transaction
 		for i := 0; i < ntx; i++ {
@@ -450,14 +933,226 @@ func runCase(o *hx.Out, f *hx.Flags, k int, t *tb) {
 		e.AddNewBlock(t, txs...)
 		record()
 		h := bc.BlockHeight()
+		if recs[h] == nil {
+			return
+		}
 		cur := recs[h].d
 		emitBatch(h, prev, cur)
+		emitFinds(h)
 		prev = cur
+	}
+	for b := 0; b < nBlocks; b++ {
+		addRandomBlock()
+	}
+	// stateRoots: GetStateRoot for every height up to a few above the top, and the module's own
+	// idea of the current local root (through the driver: the model of the per-height records)
+	stateRoots := func(tag string) {
+		top := bc.BlockHeight()
+		sm := bc.GetStateModule()
+		for h := uint32(0); h <= top+3; h++ {
+			obs := "none"
+			sr, err := sm.GetStateRoot(h)
+			if err == nil {
+				obs = fmt.Sprintf("%d %s", sr.Index, hex.EncodeToString(sr.Root[:]))
+			}
+			o.Line(fmt.Sprintf("sroot %d", h), obs)
+			rec := recs[h]
+			switch {
+			case h > top && err == nil:
+				o.Fail(tag+"stale-state-root", k, "GetStateRoot(%d) above the top %d returns %s", h, top, obs)
+			case h <= top && (err != nil || rec == nil || sr.Root != rec.root || sr.Index != h):
+				o.Fail(tag+"state-root-record", k, "GetStateRoot(%d): %s, err %v, the root computed at that height was %v", h, obs, err, rec != nil && err == nil && sr.Root == rec.root)
+			}
+			o.Count("sroot")
+		}
+		o.Line("local", fmt.Sprintf("%d %s", sm.CurrentLocalHeight(), hex.EncodeToString(func() []byte { u := sm.CurrentLocalStateRoot(); return u[:] }())))
+		if rec := recs[top]; rec != nil && (sm.CurrentLocalHeight() != top || sm.CurrentLocalStateRoot() != rec.root) {
+			o.Fail(tag+"current-local", k, "the state module's current local root is (%d, %s), the chain is at %d with root %s", sm.CurrentLocalHeight(), sm.CurrentLocalStateRoot().StringLE(), top, rec.root.StringLE())
+		}
+	}
+	stateRoots("")
+
+	// ---- restart / state reset inside the history -----------------------------------------
+	// after a restart or a Reset(target) the node must show, through every API, exactly the storage
+	// its (new) top state root commits to; then the chain goes on with new blocks
+	checkVisible := func(tag string, h uint32) (ok bool) {
+		ok = true
+		rec := recs[h]
+		if bc.BlockHeight() != h {
+			ok = false
+			o.Fail(tag+"height", k, "node is at %d, expected %d", bc.BlockHeight(), h)
+			return
+		}
+		if d := dumpAll(bc, ids); !sameDump(d, rec.d) {
+			ok = false
+			o.Fail(tag+"storage-mismatch", k, "height %d: storage visible through SeekStorage differs from the storage the root of %d commits to: %s", h, h, diffDump(d, rec.d))
+		}
+		for i, rd := range reads {
+			if got := runRO(bc, e, rd.script, 0, false); got != rec.reads[i] {
+				ok = false
+				o.Fail(tag+"read-mismatch", k, "height %d %s: now %s, was %s", h, rd.desc, got, rec.reads[i])
+				break
+			}
+		}
+		for i, fr := range finds {
+			if h < deployedAt {
+				break
+			}
+			if got := runFind(bc, e, fr.script, 0, false); got != rec.finds[i] {
+				ok = false
+				o.Fail(tag+"find-mismatch", k, "height %d %s: now %s, was %s", h, fr.line("live"), got, rec.finds[i])
+				break
+			}
+		}
+		return
+	}
+	scenario := 0
+	if stMode != 2 {
+		scenario = r.Weighted([]int{4, 3, 4})
+	}
+	switch scenario {
+	case 1: // restart
+		o.Count("scenario:restart")
+		top := bc.BlockHeight()
+		closeNode()
+		bc, acc = open(true)
+		closed = false
+		e = neotest.NewExecutor(t, bc, acc, acc)
+		o.Line("restart", "ok")
+		checkVisible("restart-", top)
+		stateRoots("restart-")
+		for i := r.Range(1, 4); i > 0; i-- {
+			addRandomBlock()
+		}
+	case 2: // reset
+		top := bc.BlockHeight()
+		target := uint32(r.Range(deployedAt, int(top)))
+		if r.Chance(1, 10) {
+			target = top
+		}
+		o.Count("scenario:reset")
+		closeNode()
+		snap := st.snapshot()
+		bcr, _ := open(false)
+		st.rec, st.batches = true, nil
+		err := func() (err error) {
+			defer func() {
+				if rec := recover(); rec != nil {
+					err = fmt.Errorf("panic: %v", rec)
+				}
+			}()
+			return bcr.Reset(target)
+		}()
+		st.rec = false
+		resetBatches := st.batches
+		st.batches = nil
+		o.Add("reset:batches", len(resetBatches))
+		// with RemoveUntraceableBlocks the failures get their own keys (tag)
+		tag := "reset-"
+		if stMode == 1 {
+			tag = "reset-rub-"
+		}
+		if err != nil {
+			o.Fail(tag+"error", k, "Reset(%d) at height %d: %v", target, top, err)
+			return
+		}
+		reopened := func() (ok bool) {
+			defer func() {
+				if rec := recover(); rec != nil {
+					msg := fmt.Sprint(rec)
+					if fn, isFn := rec.(failNow); isFn {
+						msg = fn.msg
+					}
+					if i := strings.Index(msg, "Error:"); i >= 0 {
+						msg = strings.Join(strings.Fields(msg[i:]), " ")
+					}
+					if len(msg) > 300 {
+						msg = msg[:300]
+					}
+					o.Fail(tag+"reopen", k, "after Reset(%d) at height %d the node cannot be opened: %s", target, top, msg)
+				}
+			}()
+			bc, acc = open(true)
+			closed = false
+			return true
+		}()
+		if !reopened {
+			return
+		}
+		e = neotest.NewExecutor(t, bc, acc, acc)
+		o.Line(fmt.Sprintf("reset %d", target), "ok")
+		o.Add("reset:removed-blocks", int(top-target))
+		for h := target + 1; h <= top; h++ {
+			delete(recs, h)
+		}
+		prev = recs[target].d
+		if !checkVisible(tag, target) {
+			return
+		}
+		// crash points inside the reset: the database after the first n batches; the reopened node
+		// resumes the reset by itself and must then show exactly the storage of the target height
+		if stMode == 0 && len(resetBatches) > 1 {
+			points := []int{len(resetBatches) - 1, len(resetBatches) - 2, 1 + r.Intn(len(resetBatches)-1)}
+			seen := map[int]bool{}
+			for _, n := range points {
+				if n < 1 || n >= len(resetBatches) || seen[n] {
+					continue
+				}
+				seen[n] = true
+				cst := crashedCopy(snap, resetBatches, n)
+				saveBc, saveE := bc, e
+				resumed := func() (ok bool) {
+					defer func() {
+						if rec := recover(); rec != nil {
+							msg := fmt.Sprint(rec)
+							if fn, isFn := rec.(failNow); isFn {
+								msg = fn.msg
+							}
+							if i := strings.Index(msg, "Error:"); i >= 0 {
+								msg = strings.Join(strings.Fields(msg[i:]), " ")
+							}
+							if len(msg) > 300 {
+								msg = msg[:300]
+							}
+							o.Fail("reset-resumed-reopen", k, "crash after batch %d of %d of Reset(%d): reopening failed: %s", n, len(resetBatches), target, msg)
+						}
+					}()
+					b2, a2 := openOn(cst, false)
+					bc, e = b2, neotest.NewExecutor(t, b2, a2, a2)
+					return true
+				}()
+				if resumed {
+					checkVisible("reset-resumed-", target)
+					o.Count("reset:crash-points")
+				}
+				bc, e = saveBc, saveE
+			}
+		}
+		stateRoots("reset-")
+		for i := r.Range(1, 4); i > 0; i-- {
+			addRandomBlock()
+		}
+	default:
+		o.Count("scenario:none")
+	}
+	if scenario != 0 {
+		stateRoots("after-")
 	}
 	top := bc.BlockHeight()
 	o.Seen(recs[top].root.StringLE())
 	if k < 2 {
 		o.Sample(fmt.Sprintf("case %d: %d blocks, total storage: %d keys, root %s", k, nBlocks, len(recs[top].d), recs[top].root.StringLE()))
+	}
+
+	// ---- the RPC level, at a sample of retained heights --------------------------------------
+	if stMode != 2 {
+		hs := []uint32{top}
+		for i := 0; i < 3; i++ {
+			if h := uint32(r.Range(deployedAt, int(top))); !slices.Contains(hs, h) && recs[h] != nil {
+				hs = append(hs, h)
+			}
+		}
+		rpcChecks(o, k, r, bc, recs, hs, ids[0], c.Hash, prefixes, false)
 	}
 
 	// ---- historic reads of every height --------------------------------------------------
@@ -655,6 +1350,20 @@ func runCase(o *hx.Out, f *hx.Flags, k int, t *tb) {
 					o.Fail("historic-invoke-mismatch:"+strings.Fields(rd.desc)[0], k, "height %d %s: historic %s live %s", h, rd.desc, got, rec.reads[i])
 				}
 				o.Count("historic-invoke")
+			}
+			for i, fr := range finds {
+				if h < deployedAt || (r.Chance(1, 3) && h != top) {
+					continue
+				}
+				got := runFind(bc, e, fr.script, h+1, true)
+				o.Line(fr.line(fmt.Sprint(h)), got)
+				if got != rec.finds[i] {
+					o.Fail("historic-invoke-mismatch:find", k, "height %d %s: historic %s live %s", h, fr.line("h"), got, rec.finds[i])
+				}
+				o.Count("historic-find")
+				if fr.write {
+					o.Count("historic-find:own-writes")
+				}
 			}
 		}
 	}
